@@ -405,6 +405,38 @@ impl<R: Read> Reader<R> {
         }
     }
 
+    /// Index of the header file entry this archive entry belongs to: the entry with the same
+    /// path for regular cpio entries, the recorded file index for stripped entries.
+    pub(crate) fn file_entry_index(&self, file_entries: &[FileEntry]) -> Option<usize> {
+        match &self.entry {
+            RpmPayloadEntry::Cpio(c) => {
+                // archive names are relative to the root: "./usr/bin/foo" or "usr/bin/foo"
+                let name = match c.name() {
+                    "." => "",
+                    n => n
+                        .strip_prefix("./")
+                        .or_else(|| n.strip_prefix('/'))
+                        .unwrap_or(n),
+                };
+                file_entries.iter().position(|file_entry| {
+                    file_entry
+                        .path
+                        .to_str()
+                        .map(|path| path.strip_prefix('/').unwrap_or(path))
+                        == Some(name)
+                })
+            }
+            RpmPayloadEntry::Stripped(idx) => {
+                let idx = *idx as usize;
+                if idx < file_entries.len() {
+                    Some(idx)
+                } else {
+                    None
+                }
+            }
+        }
+    }
+
     /// Finishes reading this entry and returns the underlying reader in a
     /// position ready to read the next entry (if any).
     pub fn finish(mut self) -> io::Result<R> {
